@@ -93,6 +93,58 @@ def check_cases(ctx, cases, component):
         ctx.sample({"case": dict(zip(("n", "s", "f", "min", "count", "pct"), [str(x) for x in cases[len(cases) // 2]]))}, limit=2)
 
 
+def reason_cases(ctx, cases, component):
+    """The classifier on its own: BatchResult._get_completion_reason(f, s, completed, total, cfg) vs Policy.reason,
+    with counts that need not add up (completed != s + f: the method is static and takes them separately) and with
+    completion_config None.  Domain of C09_reason_failure_iff / _no_failure / _min_sound / _failure_stable."""
+    from aws_durable_execution_sdk_python.concurrency.models import BatchResult
+    from aws_durable_execution_sdk_python.config import CompletionConfig
+
+    qs = []
+    for (n, s, f, comp, mn, cnt, pct, nocfg) in cases:
+        q = query(n, s, f, mn, cnt, pct)
+        q["c"] = "policy.reason"
+        q["completed"] = comp
+        q["noCfg"] = nocfg
+        qs.append(q)
+    answers = ctx.driver.ask_many(qs) if ctx.driver and ctx.driver.ok else [None] * len(qs)
+    for c, a in zip(cases, answers):
+        n, s, f, comp, mn, cnt, pct, nocfg = c
+        cfg = None if nocfg else CompletionConfig(min_successful=mn, tolerated_failure_count=cnt,
+                                                  tolerated_failure_percentage=None if pct is None else int(pct))
+        r = BatchResult._get_completion_reason(failure_count=f, success_count=s, completed_count=comp,
+                                               total_count=n, completion_config=cfg).value
+        case = {"n": n, "s": s, "f": f, "completed": comp, "min": mn, "count": cnt,
+                "pct": None if pct is None else str(pct), "noCfg": nocfg}
+        ctx.case(tuple(case.items()) if r != "ALL_COMPLETED" else None)
+        ctx.count("classifier=" + r)
+        # oracle (independent of SDK and model): no failed item => never FAILURE_TOLERANCE_EXCEEDED;
+        # MIN_SUCCESSFUL_REACHED only with a configured minimum that was met and unfinished items
+        if nocfg and f > 0 and r != "FAILURE_TOLERANCE_EXCEEDED":
+            # no configuration = no tolerance: the executor stops at the first failure, so must the reported reason
+            ctx.violate("C09.reason_consistent", case, {"reason": r, "policy": "fail-fast without configuration"}, component)
+        if (r == "FAILURE_TOLERANCE_EXCEEDED" and f == 0) or \
+           (r == "MIN_SUCCESSFUL_REACHED" and (nocfg or mn is None or s < mn or comp == n)):
+            ctx.violate("C09.reason_consistent", case, {"reason": r}, component)
+        if a is not None:
+            if a.get("reason") != r:
+                ctx.disagree(component, case, {"reason": r}, {"reason": a.get("reason")}, "classifier differs from Policy.reason")
+            else:
+                ctx.traces_validated += 1
+
+
+def reason_grid(nmax):
+    for n in range(0, nmax + 1):
+        for s in range(0, n + 1):
+            for f in range(0, n + 1):
+                for comp in range(0, n + 1):
+                    yield (n, s, f, comp, None, None, None, True)
+                    for mn in [None] + list(range(0, n + 2)):
+                        for cnt in [None, 0, 1, n]:
+                            for pct in (None, 0, 34, 50, 100):
+                                yield (n, s, f, comp, mn, cnt, pct, False)
+
+
 def grid(nmax):
     for n in range(0, nmax + 1):
         for s in range(0, n + 1):
@@ -127,6 +179,7 @@ def run(ctx, component="policy"):
     else:
         ctx.notes.append("policy grid n<=4 enumerated completely")
     check_cases(ctx, boundary(ctx.rng, ctx.scale(300, 5000)), component + ".boundary")
+    reason_cases(ctx, list(reason_grid(3 if not ctx.thorough else 5)), component + ".classifier")
 
 
 def search(ctx):
@@ -134,10 +187,15 @@ def search(ctx):
     try:
         check_cases(ctx, list(grid(6)), "policy.search")
         check_cases(ctx, boundary(ctx.rng, 5000), "policy.search.boundary")
+        reason_cases(ctx, list(reason_grid(4)), "policy.search.classifier")
     finally:
         ctx.driver = saved
 
 
 def replay_case(ctx, case):
     pct = None if case.get("pct") in (None, "None") else Fraction(case["pct"])
+    if "completed" in case:
+        reason_cases(ctx, [(case["n"], case["s"], case["f"], case["completed"], case.get("min"), case.get("count"),
+                            pct, bool(case.get("noCfg")))], "policy.replay.classifier")
+        return
     check_cases(ctx, [(case["n"], case["s"], case["f"], case.get("min"), case.get("count"), pct)], "policy.replay")
